@@ -54,11 +54,26 @@ func genC11(seed uint64, tier string) *plan.Plan {
 	var tmpls []gTemplate
 	total := 0
 	var bounds []int
+	// the neighbour connection's template (its own observation domain)
+	t1 := genTemplate(r, 6, 400, tmplOpts{maxFields: 3})
+	for len(t1.Fields) == 0 {
+		t1 = genTemplate(r, 6, 400, tmplOpts{maxFields: 3})
+	}
 	for i := 0; i < n; i++ {
 		var b []byte
 		kind := ""
 		if i == badAt {
-			switch r.IntN(5) {
+			switch r.IntN(6) {
+			case 5:
+				// not an IPFIX message by its version; its body would be a template for the neighbour
+				// connection's (domain, id) with another layout - it is refused as a whole
+				tx := genTemplate(r, 6, 400, tmplOpts{maxFields: 4})
+				for len(tx.Fields) == 0 {
+					tx = genTemplate(r, 6, 400, tmplOpts{maxFields: 4})
+				}
+				b = tx.templateMsg(hdr())
+				b[1] = []byte{9, 0, 11}[r.IntN(3)]
+				kind = "bad-version-template"
 			case 0:
 				b = ipfixref.EncodeMessage(hdr(), ipfixref.EncodeSet(300, []byte{1, 2, 3, 4}))
 				b[1] = 9 // version
@@ -119,10 +134,6 @@ func genC11(seed uint64, tier string) *plan.Plan {
 		bounds = append(bounds, total)
 	}
 	// neighbour connection
-	t1 := genTemplate(r, 6, 400, tmplOpts{maxFields: 3})
-	for len(t1.Fields) == 0 {
-		t1 = genTemplate(r, 6, 400, tmplOpts{maxFields: 3})
-	}
 	pl.Ops = append(pl.Ops, plan.Op{K: "msg", T: 1, X: hex.EncodeToString(t1.templateMsg(hdr())), S: "template"})
 	for i := r.IntN(4); i >= 0; i-- {
 		pl.Ops = append(pl.Ops, plan.Op{K: "msg", T: 1, X: hex.EncodeToString(t1.dataMsg(hdr(), t1.dataBody(r, 1+r.IntN(2), 10, false, false))), S: "data"})
@@ -334,7 +345,11 @@ func runC11(pl *plan.Plan, out *plan.Outcome) {
 			out.Trouble = "dial: " + err.Error()
 			return
 		}
-		for _, m := range msgs[1] {
+		for i, m := range msgs[1] {
+			if i > 0 && i == len(msgs[1])-1 {
+				// the last one long after the other connection's stream has been written and dealt with
+				env.Sleep(100 * time.Minute)
+			}
 			Block("write", func() { c.Write(m) })
 			env.Sleep(time.Duration(1+env.Rng.IntN(2000)) * time.Millisecond)
 		}
